@@ -512,7 +512,17 @@ func (o *Origin) load(addr ssa.Value, at ssa.Instruction) *Term {
 		}
 		return &Term{Op: "deref", Args: []*Term{t}}
 	}
-	return o.withPointeeStores(addr, at, &Term{Op: "deref", Args: []*Term{o.Of(addr)}})
+	pt := o.Of(addr)
+	if pt.Op == "addr" && len(pt.Args) == 1 && pt.Args[0].Op == "lit" {
+		// *(&T{…}): the literal itself (a constructor that returns a pointer, dereferenced by its caller)
+		if _, isCall := addr.(*ssa.Call); isCall {
+			return pt.Args[0]
+		}
+		if _, isEx := addr.(*ssa.Extract); isEx {
+			return pt.Args[0]
+		}
+	}
+	return o.withPointeeStores(addr, at, &Term{Op: "deref", Args: []*Term{pt}})
 }
 
 // withPointeeStores: a whole-value load *p where the function also assigns fields through an equal pointer (p.F = v) is
